@@ -75,7 +75,11 @@ def check (line : String) : String :=
             else if qb != prepPredsOf mt dB dA then s!"prepared-vs-matrix-swapped mt={mt.toStr} QB={get "QB"} dims={dB},{dA}"
             else if !(ob.pats.all fun (pp, r, pr) => r == m.matchesPat pp && pr == r) then s!"pattern m={m.toStr} pat={get "pat"}"
             else s!"self-relations self={get "self"}"
-          "bad " ++ why ++ " nov=" ++ nov
+          -- for the self relations the contact that matters is inside A: a vertex of A within rounding distance of another segment of A
+          let novSelf := match flattenPair ga.g ga.g with
+            | some (A, _) => if inexactIncidence A.f A.f then "1" else "0"
+            | none => "?"
+          "bad " ++ why ++ " nov=" ++ (if why.startsWith "self-relations" then novSelf else nov)
         else if get "QR" != get "Q" then s!"bad prepared-order-dependent Q={get "Q"} QR={get "QR"} nov={nov}"
         else if ea && eb && (get "P").toList[7]? == some '1' && m.toStr == "FFFFFFFF2" then "bad equals-both-empty"
         else
@@ -91,9 +95,37 @@ def check (line : String) : String :=
     | _, _ => "parse-error"
   | _ => "bad-line"
 
+/-! #### stream im-algebra: `geom::IntersectionMatrix` as a matrix, from the model of Base/IM (the object of the transposition algebra) -/
+
+def loc3 (c : Char) : Option Loc3 := if c == '0' then some .I else if c == '1' then some .B else if c == '2' then some .E else none
+def dimOf (c : Char) : Option Int := if c == 'F' then some (-1) else if c == '0' then some 0 else if c == '1' then some 1 else if c == '2' then some 2 else none
+
+def imAlgebra (line : String) : String :=
+  match Driver.tokens line with
+  | "A" :: m :: pat :: cell :: ops =>
+    let step (acc : Option IM) (t : String) : Option IM := do
+      let m ← acc
+      match t.toList with
+      | ['t'] => some m.transpose
+      | ['s', a, b, d] => some (m.set (← loc3 a) (← loc3 b) (← dimOf d))
+      | ['l', a, b, d] => some (m.raise (← loc3 a) (← loc3 b) (← dimOf d))
+      | _ => none
+    match ops.foldl step (parseIM m), cell.toList with
+    | some mf, [ca, cb] =>
+      match loc3 ca, loc3 cb with
+      | some a, some b =>
+        let p := if pat == "-" then [] else pat.toList
+        -- `matches` of the transposed matrix with the transposed pattern has the same answer (theorem matchesPat_transpose)
+        let mt := if p.length == 9 then (if mf.matchesPat p then "1" else "0") else "X"
+        s!"{mf.toStr} {mf.get a b} {mt}{mt}"
+      | _, _ => "parse-error"
+    | _, _ => "parse-error"
+  | _ => "bad-line"
+
 end Driver.C02
 
 def main (args : List String) : IO UInt32 := do
   match args with
   | ["relate-dbl"] => Driver.loop (← IO.getStdin) (← IO.getStdout) Driver.C02.check; return 0
+  | ["im-algebra"] => Driver.loop (← IO.getStdin) (← IO.getStdout) Driver.C02.imAlgebra; return 0
   | _ => IO.eprintln "usage: drv_c02 relate-dbl"; return 2
